@@ -125,6 +125,7 @@ static Em* em[MAXE]; static Li* li[MAXL];         // 0 when destroyed
 static Em* emp[MAXE]; static Li* lip[MAXL];       // addresses kept for the dumps
 static Act script[MAXL][NSLOT][MAXA]; static int nscript[MAXL][NSLOT];
 static int cur_e[64], cur_sg[64], cur_n[64], serial;
+static int ninv;                                  // slot invocations of the current top-level operation
 static char logbuf[1 << 16]; static size_t loglen;
 static char trbuf[1 << 23]; static size_t trlen;      // internal data of the emitting signal at every slot entry / exit
 
@@ -206,6 +207,8 @@ static void run_slot(Li* self, int s)
   volatile unsigned m = self->magic;     // touches the receiver: ASan reports a destroyed one here
   int id = self->id;
   if(m != 0x51075107u || id < 0 || id >= MAXL) { printf("?bad-receiver\n"); abort(); }
+  // generated programs stay below 200 invocations (cost filter of the check): at twice that the emission is taken not to end
+  if(++ninv > 400) { printf("?runaway-emission\n"); abort(); }
   loglen += snprintf(logbuf + loglen, sizeof(logbuf) - loglen, "%s%d.%d>%d.%d", loglen ? " " : "", cur_e[depth - 1], cur_sg[depth - 1], id, s);
   if(loglen > sizeof(logbuf) - 64) { printf("?log-overflow\n"); abort(); }
   int me = cur_e[depth - 1], msg = cur_sg[depth - 1];
@@ -324,7 +327,7 @@ static void op(long c, long, vh::Tok& t)
   }
   Act a;
   if(!parse_act(t.v, t.n, a)) { printf("%ld ?unknown-op\n", c); return; }
-  loglen = 0; logbuf[0] = 0; trlen = 0; trbuf[0] = 0;
+  loglen = 0; logbuf[0] = 0; trlen = 0; trbuf[0] = 0; ninv = 0;
   perform(a);
   printf("%ld %s |", c, loglen ? logbuf : "-");
   dump();
